@@ -116,6 +116,7 @@ func genEpisode(seed uint64, e int, thorough bool) *Episode {
 	// one episode in five is a long private-key workload: a few goroutines, each
 	// driving its own XMSS object (same height) through many signatures and
 	// jumps, so that state shared between distinct key objects gets used
+	hot := r.Intn(64)
 	longPriv := r.Chance(0.15)
 	if longPriv {
 		n = r.Range(2, 3)
@@ -132,6 +133,9 @@ func genEpisode(seed uint64, e int, thorough bool) *Episode {
 		for len(calls) < nc {
 			k := enabled[r.Intn(len(enabled))]
 			c := Call{K: k, A: r.Intn(64), B: r.Intn(64)}
+			if r.Chance(0.4) { // several goroutines on the very same input buffers at once
+				c.A = hot
+			}
 			switch k {
 			case "xnew", "xnewext":
 				if !r.Chance(0.12) { // key generation is expensive: keep it rare
@@ -575,6 +579,8 @@ type ReplayFile struct {
 	SiteTable       string         `json:"site_table_hash"`
 	Race            bool           `json:"race_build"`
 	Cold            bool           `json:"cold_start,omitempty"`
+	BestEffort      bool           `json:"replay_best_effort,omitempty"` // race report that did not recur when the schedule was re-executed
+	RunIndex        int            `json:"run_index,omitempty"` // race reports: index of the run (0,1 = baselines) in which the report came
 	Minimised       bool           `json:"minimised"`
 	Episode         *Episode       `json:"episode"`
 	Plan            *simsched.Plan `json:"plan"`
